@@ -211,7 +211,11 @@ impl BitWrite for BitBuffer {
 
     #[inline]
     fn write_bits_with_offset(&mut self, src: &[u8], src_bit_offset: usize) -> Result<(), Error> {
-        self.ensure_can_write_additional_bits(src.len() * BYTE_LEN - src_bit_offset);
+        // validate the source before growing, a failed write must not leave the buffer extended
+        let src_bit_len = (src.len() * BYTE_LEN)
+            .checked_sub(src_bit_offset)
+            .ok_or_else(Error::insufficient_data_in_source_buffer)?;
+        self.ensure_can_write_additional_bits(src_bit_len);
         BitWrite::write_bits_with_offset(
             &mut (&mut self.buffer[..], &mut self.write_position),
             src,
@@ -221,6 +225,10 @@ impl BitWrite for BitBuffer {
 
     #[inline]
     fn write_bits_with_len(&mut self, src: &[u8], bit_len: usize) -> Result<(), Error> {
+        // validate the source before growing, a failed write must not leave the buffer extended
+        if src.len() * BYTE_LEN < bit_len {
+            return Err(Error::insufficient_data_in_source_buffer());
+        }
         self.ensure_can_write_additional_bits(bit_len);
         BitWrite::write_bits_with_len(
             &mut (&mut self.buffer[..], &mut self.write_position),
@@ -236,6 +244,10 @@ impl BitWrite for BitBuffer {
         src_bit_offset: usize,
         src_bit_len: usize,
     ) -> Result<(), Error> {
+        // validate the source before growing, a failed write must not leave the buffer extended
+        if src.len() * BYTE_LEN < src_bit_offset.saturating_add(src_bit_len) {
+            return Err(Error::insufficient_data_in_source_buffer());
+        }
         self.ensure_can_write_additional_bits(src_bit_len);
         BitWrite::write_bits_with_offset_len(
             &mut (&mut self.buffer[..], &mut self.write_position),
